@@ -999,6 +999,27 @@ func TestC15Ligatures(t *testing.T) {
 				t.Fatalf("Layout(%q): text attached to the glyphs is %q\n%s", s, text.String(), ctx())
 			}
 		}
+		// the caller's feature switches are honoured for the synthesised
+		// ligature feature too: with "liga" switched off every character
+		// keeps its own glyph
+		if lOff, err := g.NewLayouter(language.English, map[string]bool{"liga": false}, nil); err == nil {
+			for _, s := range strs {
+				var out []glyph.Info
+				if pn := guard.Try(func() { out = append([]glyph.Info(nil), lOff.Layout(s)...) }); pn != nil {
+					t.Fatalf("Layout(%q) with liga switched off panicked: %s\n%s", s, pn, ctx())
+				}
+				var got, want []glyph.ID
+				for _, o := range out {
+					got = append(got, o.GID)
+				}
+				for _, r := range s {
+					want = append(want, m[uint16(r)])
+				}
+				if fmt.Sprint(got) != fmt.Sprint(want) {
+					t.Fatalf("Layout(%q) with the feature switches {liga: false} gives glyphs %v, want one glyph per character %v\n%s", s, got, want, ctx())
+				}
+			}
+		}
 		labels := []string{fmt.Sprintf("ligatures-%d", len(avail))}
 		if fixed {
 			labels = append(labels, "fixed-pitch")
